@@ -176,6 +176,7 @@ void sweep_op(WorldRun &wr, int task, const Pool &pool, const Op &op, uint32_t i
 void run_op(WorldRun &wr, int task, Pool &pool, const Op &op, uint32_t idx, TaskLog &log) {
   const Plan &plan = *wr.plan;
   sim::begin_op(idx, -1, -1, -1);
+  sim::g_cur->op_kind = op.kind;
   Snapshot before = snapshot(pool, plan.deep != 0);
   if (plan.sweep && sweepable(op) && task >= 0) {
     sweep_op(wr, task, pool, op, idx, before, log);
